@@ -91,6 +91,16 @@ where
         cfg.allow_aux = false;
         cfg.max_degree = 2;
     }
+    // long periodic cycles over a constraint-evaluation domain that is split into fragments (>= 8192)
+    let long_periodic = !wide_short && !X::is_rescue() && s.chance(1, 5);
+    if long_periodic {
+        cfg.min_log_n = 11;
+        cfg.max_log_n = 12;
+        cfg.max_width = 3;
+        cfg.max_degree = 4;
+        cfg.allow_aux = false;
+        cfg.force_periodic = true;
+    }
     let Instance { spec, main, .. } = gen_instance::<X::S>(s, &cfg, &mut rec);
     let max_lde = if wide_short { 1 << 7 } else if X::is_rescue() { 1 << 11 } else { 1 << 15 };
     let mut opt = gen_options(s, spec.trace_len, spec.min_blowup(), max_lde, <X::S as FSpec>::CUBE.is_some(), &mut rec);
@@ -452,7 +462,7 @@ fn main() {
     let c06 = Prop {
         id: "C06",
         level: "exploration",
-        rule: "case = one generated input of a family (proof: GenAir instance + options with LDE sizes 2^7..2^15 around the 1024 and 8192 thresholds, grinding 0 or 8, one case in six wide and short: up to 130 columns over 8..32 rows; fft: sizes 256..2^14; batch: lengths around 1024, 8*1024, 16*1024; merkle: 512..2^13 leaves; matrix: 1..120 columns; tables: fragments of every length) x one build variant (async; concurrent with RAYON_NUM_THREADS in {1,2,3,4,5,7,8,12,16,33,128}, thorough: 1..16 and {24,33,64,100,128,300} twice). The same case list is regenerated in every build from the same proptest strategy and ChaCha seed. Oracle: digests of the outputs equal the serial build's: for proofs the context, commitments and OOD frame always, the whole proof whenever the nonce is equal, and every proof verifies; for the other families every output. Non-trivial = some parallel path is active (proof LDE >= 1024; all other families are sized to cross their thresholds); distinct = (case, variant).",
+        rule: "case = one generated input of a family (proof: GenAir instance + options with LDE sizes 2^7..2^15 around the 1024 and 8192 thresholds, grinding 0 or 8, one case in six wide and short: up to 130 columns over 8..32 rows, one in five with periodic columns whose cycle is a quarter of the trace or longer over 2^11..2^12 rows; fft: sizes 256..2^14; batch: lengths around 1024, 8*1024, 16*1024; merkle: 512..2^13 leaves; matrix: 1..120 columns; tables: fragments of every length) x one build variant (async; concurrent with RAYON_NUM_THREADS in {1,2,3,4,5,7,8,12,16,33,128}, thorough: 1..16 and {24,33,64,100,128,300} twice). The same case list is regenerated in every build from the same proptest strategy and ChaCha seed. Oracle: digests of the outputs equal the serial build's: for proofs the context, commitments and OOD frame always, the whole proof whenever the nonce is equal, and every proof verifies; for the other families every output. Non-trivial = some parallel path is active (proof LDE >= 1024; all other families are sized to cross their thresholds); distinct = (case, variant).",
         assumptions: vec![
             "thread schedules are explored by thread count, repeated runs and data sizes around the chunking thresholds; an interleaving-dependent race that does not depend on the partitioning would need a schedule-owning tool and is out of reach of this family (DESIGN.md section 7)",
             "the async variant is driven by a block_on with a no-op waker: the prover never actually suspends",
